@@ -138,6 +138,38 @@ def main():
     (status["extracted"] if m else status["fallback"]).append("junkNames")
     defs.append("/-- junk file names (as bytes): `src/walker.rs` -/\ndef junkNames : List (List UInt8) := [" + ", ".join("[" + ", ".join(str(b) for b in j.encode()) + "]" for j in junk) + "]")
 
+    # ---- C08 limits that keep recursion within the stack
+    nat("maxPathComponents", "src/file_path.rs", r"MAX_COMPONENTS\s*:\s*usize\s*=\s*([\d_]+)", 2048, doc="largest accepted number of components in a listed path")
+    nat("valueMaxDepth", "src/infohash.rs", r"MAX_DEPTH\s*:\s*usize\s*=\s*([\d_]+)", 2048, doc="nesting limit of the generic bencode decoder")
+
+    # ---- C10 magnet value escaping: the bytes `push_value` copies literally
+    src = read(repo, "src/magnet_link.rs")
+    keep = None
+    m = re.search(r"fn\s+push_value.*?match\s+byte\s*\{(.*?)=>\s*query\.push\(char::from\(byte\)\)", src, flags=re.S)
+    if m:
+        keep = set()
+        ok = True
+        for arm in m.group(1).split("|"):
+            arm = arm.strip()
+            r = re.fullmatch(r"b'(\\?.)'\s*\.\.=\s*b'(\\?.)'", arm)
+            o = re.fullmatch(r"b'(\\?.)'", arm)
+            def byte(t):
+                return ord(t[-1]) if not t.startswith("\\") else {"n": 10, "t": 9, "r": 13, "0": 0, "\\": 92, "'": 39}.get(t[1], ord(t[1]))
+            if r:
+                keep |= set(range(byte(r.group(1)), byte(r.group(2)) + 1))
+            elif o:
+                keep.add(byte(o.group(1)))
+            elif arm:
+                ok = False
+        if not ok:
+            keep = None
+    if keep is not None:
+        status["extracted"].append("magnetKeep")
+    else:
+        status["fallback"].append("magnetKeep")
+        keep = set(b"ABCDEFGHIJKLMNOPQRSTUVWXYZabcdefghijklmnopqrstuvwxyz0123456789-._~:/,[]?=@")
+    defs.append("/-- bytes copied literally into magnet link values by `push_value`: `src/magnet_link.rs` -/\ndef magnetKeep : List Nat := [" + ", ".join(str(b) for b in sorted(keep)) + "]")
+
     # ---- C12 UDP tracker
     nat("udpMagic", "src/tracker/connect.rs", r"UDP_TRACKER_MAGIC\s*:\s*u64\s*=\s*(0x[0-9a-fA-F_]+)", 0x41727101980, doc="BEP 15 protocol magic")
     nat("connectReqLen", "src/tracker/connect.rs", r"impl\s+Request\s*\{\s*pub\(crate\)\s*const\s+LENGTH\s*:\s*usize\s*=\s*(\d+)", 16, doc="connect request length")
